@@ -219,7 +219,9 @@ def run_seq(ctx, case):
             P.add("stup %%9 %s null" % good)
             P.add("concat %s %%9" % c, expect_exc(*NULLISH))
             if known_off("concat-partial-append") and not case.get("strict"):
-                r.model.append(good)          # same mechanism as concat-wrongitem (listed finding): the good prefix stays
+                # same mechanism as concat-wrongitem (listed finding): the good prefix may stay appended; cut back to the
+                # old length so that both the listed behaviour and an unchanged container pass
+                P.add("resize %s %d" % (c, len(r.model)))
     elif f in ("assign-nonseq", "assign-null", "concat-nonseq"):
         # a source that is not iterable / NULL
         src = "null" if f == "assign-null" else "i:5"
@@ -304,10 +306,11 @@ def run_seq(ctx, case):
             P.add("concat %s %%9" % c, expect_exc(*WRONG))
             key = "concat-partial-append"
             if known_off(key) and not case.get("strict"):
-                # listed finding: the items before the bad one stay appended.  Only the 'unchanged' assertion of this
-                # cell is replaced (by: exactly the good prefix was appended); raised / exception kind / depth /
-                # ledger / suffix are still checked.
-                r.model.append(good)
+                # listed finding: the items before the bad one may stay appended.  Only the 'unchanged' assertion of this
+                # cell is given up: the container is cut back to its old length (a no-op when nothing was appended), so the
+                # listed behaviour and a repaired library both pass; raised / exception kind / depth / ledger / suffix are
+                # still checked.
+                P.add("resize %s %d" % (c, len(r.model)))
                 key = None
     elif f == "concat-null":
         P.add("concat %s null" % c, expect_exc("ValueError"))
